@@ -325,3 +325,105 @@ func edgeKnownEmptyArray(pred, b *ssa.BasicBlock, v ssa.Value) bool {
 	}
 	return false
 }
+
+// R-TYPEREL: in the assignability and matching relations, the wildcard cases (an untyped empty literal, a generic
+// built-in parameter) apply only between types of the same kind: `[]` is an array and matches arrays only.
+var ruleTypeRel = &Rule{
+	ID: "R-TYPEREL",
+	Doc: "in (*Type).accepts and (*Type).matches every wildcard case (EMPTY_ARRAY, EMPTY_MAP, GENERIC_ARRAY, GENERIC_MAP) is reached only after the two type names " +
+		"were found equal at that level: an empty literal or generic parameter never makes types of different kinds compatible",
+	Floor: 4,
+	Run:   runTypeRel,
+}
+
+func runTypeRel(c *Ctx, r *Reporter) {
+	p, pkg := parserPkg(c, r)
+	if pkg == nil {
+		return
+	}
+	wild := map[string]bool{"EMPTY_ARRAY": true, "EMPTY_MAP": true, "GENERIC_ARRAY": true, "GENERIC_MAP": true}
+	isNameLoad := func(v ssa.Value) bool {
+		u, ok := v.(*ssa.UnOp)
+		if !ok || u.Op != token.MUL {
+			return false
+		}
+		fa, ok := u.X.(*ssa.FieldAddr)
+		if !ok {
+			return false
+		}
+		named, field := fieldAddrInfo(fa)
+		return named != nil && named.Obj().Name() == "Type" && field == "Name"
+	}
+	for _, name := range []string{"(*Type).accepts", "(*Type).matches"} {
+		fd := FindFunc(pkg, name)
+		if fd == nil {
+			r.Undecided("%s not found", name)
+			continue
+		}
+		sf := p.SSAFunc(fd.Obj)
+		// edges on which the names are known equal
+		type edge struct {
+			b   *ssa.BasicBlock
+			idx int
+		}
+		var nameEq []edge
+		for _, b := range sf.Blocks {
+			if len(b.Instrs) == 0 {
+				continue
+			}
+			ifi, ok := b.Instrs[len(b.Instrs)-1].(*ssa.If)
+			if !ok {
+				continue
+			}
+			bo, ok := ifi.Cond.(*ssa.BinOp)
+			if !ok || !isNameLoad(bo.X) || !isNameLoad(bo.Y) {
+				continue
+			}
+			switch bo.Op {
+			case token.NEQ:
+				nameEq = append(nameEq, edge{b, 1})
+			case token.EQL:
+				nameEq = append(nameEq, edge{b, 0})
+			}
+		}
+		k := 0
+		for _, b := range sf.Blocks {
+			if len(b.Instrs) == 0 {
+				continue
+			}
+			ifi, ok := b.Instrs[len(b.Instrs)-1].(*ssa.If)
+			if !ok {
+				continue
+			}
+			bo, ok := ifi.Cond.(*ssa.BinOp)
+			if !ok || bo.Op != token.EQL {
+				continue
+			}
+			g := ""
+			for _, side := range []ssa.Value{bo.X, bo.Y} {
+				if u, ok := side.(*ssa.UnOp); ok {
+					if gl, ok := u.X.(*ssa.Global); ok && wild[gl.Name()] {
+						g = gl.Name()
+					}
+				}
+			}
+			if g == "" {
+				continue
+			}
+			k++
+			dominated := false
+			for _, e := range nameEq {
+				if edgeDominates(e.b, e.idx, b) {
+					dominated = true
+				}
+			}
+			r.Check(dominated, fmt.Sprintf("%s#wildcard[%d]:%s", fd.QName(), k, g), p.Rel(instrPos(ifi)),
+				"the wildcard is consulted only after the type names were found equal at this level",
+				"the test against "+g+" is reachable without the type names having been compared: an empty literal (or generic parameter) then makes types of different kinds compatible "+
+					"(`n + []`, `[] == {}`, `1 < []` are accepted and fail or crash at run time)")
+		}
+		if k == 0 {
+			r.Undecided("%s has no wildcard case", name)
+		}
+	}
+}
